@@ -105,10 +105,10 @@ theorem grow_start (s : St) (k : Nat) (r : Rec) (force : Bool) (hk : s.key k = s
       | some y =>
         simp only []
         have h2 : Grow s1 (modG s1 r.gen fun x =>
-            { x with insts := x.insts ++ [{ rid := r.id, data := r.data, waitOn := x.last }], last := some y.insts.length }) :=
+            { x with insts := x.insts ++ [{ rid := r.id, data := r.data, waitOn := x.last, cancelled := s.ctx == some 0 }], last := some y.insts.length }) :=
           grow_modG s1 r.gen _ (fun y' _ => ⟨rfl, Or.inr ⟨k, r, hk1, rfl⟩⟩)
         have h3 := grow_setRec (modG s1 r.gen fun x =>
-            { x with insts := x.insts ++ [{ rid := r.id, data := r.data, waitOn := x.last }], last := some y.insts.length })
+            { x with insts := x.insts ++ [{ rid := r.id, data := r.data, waitOn := x.last, cancelled := s.ctx == some 0 }], last := some y.insts.length })
           k r { r with deferRetry := none, err := false, success := false, exited := false,
                        cur := some y.insts.length, cancelOf := some y.insts.length } (by simpa using hk1) rfl
         exact h1.trans (h2.trans h3)
@@ -223,13 +223,21 @@ theorem grow_execOp (s : St) (op : Op) : Grow s (execOp s op).1 := by
   | getKey k => simp only [execOp]; split <;> exact Grow.refl s
   | getKeys => exact Grow.refl s
   | getKeysWithData => exact Grow.refl s
-  | resetRoutine k => exact grow_resetKey s k
-  | restartRoutine k => exact grow_restartKey s k
-  | resetAll =>
+  | resetRoutine k cs =>
+    simp only [execOp]
+    split
+    · exact grow_resetKey s k
+    · exact Grow.refl s
+  | restartRoutine k cs =>
+    simp only [execOp]
+    split
+    · exact grow_restartKey s k
+    · exact Grow.refl s
+  | resetAll cs =>
     simp only [execOp]
     rw [foldl_fst resetAllStep (fun s k => (resetKey s k).1) (fun _ _ => rfl)]
     exact foldl_grow _ grow_resetKey _ _
-  | restartAll =>
+  | restartAll cs =>
     simp only [execOp]
     rw [foldl_fst restartAllStep (fun s k => (restartKey s k).1) (fun _ _ => rfl)]
     exact foldl_grow _ grow_restartKey _ _
